@@ -2,9 +2,9 @@
     Model/M_C19.v was written against.  GENERATED ONCE by a script, then frozen by hand: every lemma is
     `reflexivity` between the regenerated table and the literal copied here, so any change of a key, a
     value expression, a default, an argument order or a statement in a to_dict / from_dict / __init__ of an
-    anchored class makes this file stop compiling (fail closed).  At the still-open defect sites both the
-    current and the repaired text are accepted, selected by the regenerated flag; sites repaired by a `fix:`
-    commit are pinned in their repaired form only. *)
+    anchored class makes this file stop compiling (fail closed).  Every site is pinned in its current (repaired) form; should a site be reopened, both texts
+    can be accepted again through the regenerated k_flag definitions.
+    *)
 From Coq Require Import List String Bool.
 From OV Require Import Gen.C19Codec Model.M_C19.
 Import ListNotations.
@@ -18,8 +18,7 @@ Definition impl_now : impl :=
 Lemma pin_Optic_bases : k_codec_Optic_bases = [].
 Proof. reflexivity. Qed.
 Lemma pin_Optic_to_dict : k_codec_Optic_to_dict =
-   if k_flag_pol_codec
-   then [("<args>"%string, "self"%string);
+   [("<args>"%string, "self"%string);
     ("<dict>"%string, "data ="%string);
     ("version"%string, "1.0"%string);
     ("aperture"%string, "self.aperture.to_dict() if self.aperture else None"%string);
@@ -32,25 +31,10 @@ Lemma pin_Optic_to_dict : k_codec_Optic_to_dict =
     ("data.wavelengths.polarization"%string, "self.polarization.to_dict() if isinstance(self.polarization, PolarizationState) else self.polarization"%string);
     ("data.fields.field_type"%string, "self.field_type"%string);
     ("data.fields.object_space_telecentric"%string, "self.obj_space_telecentric"%string);
-    ("<stmt>"%string, "return data"%string)]
-   else [("<args>"%string, "self"%string);
-    ("<dict>"%string, "data ="%string);
-    ("version"%string, "1.0"%string);
-    ("aperture"%string, "self.aperture.to_dict() if self.aperture else None"%string);
-    ("surface_group"%string, "self.surface_group.to_dict()"%string);
-    ("fields"%string, "self.fields.to_dict()"%string);
-    ("wavelengths"%string, "self.wavelengths.to_dict()"%string);
-    ("pickups"%string, "self.pickups.to_dict()"%string);
-    ("solves"%string, "self.solves.to_dict()"%string);
-    ("</dict>"%string, ""%string);
-    ("data.wavelengths.polarization"%string, "self.polarization"%string);
-    ("data.fields.field_type"%string, "self.field_type"%string);
-    ("data.fields.object_space_telecentric"%string, "self.obj_space_telecentric"%string);
     ("<stmt>"%string, "return data"%string)].
 Proof. reflexivity. Qed.
 Lemma pin_Optic_from_dict : k_codec_Optic_from_dict =
-   if k_flag_pol_codec
-   then [("<args>"%string, "cls, data"%string);
+   [("<args>"%string, "cls, data"%string);
     ("<stmt>"%string, "optic = cls()"%string);
     ("<stmt>"%string, "optic.aperture = Aperture.from_dict(data['aperture']) if data['aperture'] else None"%string);
     ("<stmt>"%string, "optic.surface_group = SurfaceGroup.from_dict(data['surface_group'])"%string);
@@ -60,21 +44,6 @@ Lemma pin_Optic_from_dict : k_codec_Optic_from_dict =
     ("<stmt>"%string, "optic.solves = SolveManager.from_dict(optic, data['solves'])"%string);
     ("<stmt>"%string, "polarization = data['wavelengths']['polarization']"%string);
     ("<stmt>"%string, "optic.polarization = PolarizationState.from_dict(polarization) if isinstance(polarization, dict) else polarization"%string);
-    ("<stmt>"%string, "optic.field_type = data['fields']['field_type']"%string);
-    ("<stmt>"%string, "optic.obj_space_telecentric = data['fields']['object_space_telecentric']"%string);
-    ("<stmt>"%string, "optic.paraxial = Paraxial(optic)"%string);
-    ("<stmt>"%string, "optic.aberrations = Aberrations(optic)"%string);
-    ("<stmt>"%string, "optic.ray_generator = RayGenerator(optic)"%string);
-    ("<stmt>"%string, "return optic"%string)]
-   else [("<args>"%string, "cls, data"%string);
-    ("<stmt>"%string, "optic = cls()"%string);
-    ("<stmt>"%string, "optic.aperture = Aperture.from_dict(data['aperture']) if data['aperture'] else None"%string);
-    ("<stmt>"%string, "optic.surface_group = SurfaceGroup.from_dict(data['surface_group'])"%string);
-    ("<stmt>"%string, "optic.fields = FieldGroup.from_dict(data['fields'])"%string);
-    ("<stmt>"%string, "optic.wavelengths = WavelengthGroup.from_dict(data['wavelengths'])"%string);
-    ("<stmt>"%string, "optic.pickups = PickupManager.from_dict(optic, data['pickups'])"%string);
-    ("<stmt>"%string, "optic.solves = SolveManager.from_dict(optic, data['solves'])"%string);
-    ("<stmt>"%string, "optic.polarization = data['wavelengths']['polarization']"%string);
     ("<stmt>"%string, "optic.field_type = data['fields']['field_type']"%string);
     ("<stmt>"%string, "optic.obj_space_telecentric = data['fields']['object_space_telecentric']"%string);
     ("<stmt>"%string, "optic.paraxial = Paraxial(optic)"%string);
@@ -279,8 +248,7 @@ Proof. reflexivity. Qed.
 Lemma pin_Plane_bases : k_codec_Plane_bases = ["BaseGeometry"%string].
 Proof. reflexivity. Qed.
 Lemma pin_Plane_to_dict : k_codec_Plane_to_dict =
-   if k_flag_plane_conic
-   then [("<args>"%string, "self"%string);
+   [("<args>"%string, "self"%string);
     ("<stmt>"%string, "geometry_dict = super().to_dict()"%string);
     ("<dict>"%string, "geometry_dict.update"%string);
     ("radius"%string, "np.inf"%string);
@@ -288,27 +256,16 @@ Lemma pin_Plane_to_dict : k_codec_Plane_to_dict =
     ("<if>"%string, "getattr(self, 'k', 0) != 0"%string);
     ("  geometry_dict.conic"%string, "self.k"%string);
     ("<endif>"%string, ""%string);
-    ("<stmt>"%string, "return geometry_dict"%string)]
-   else [("<args>"%string, "self"%string);
-    ("<stmt>"%string, "geometry_dict = super().to_dict()"%string);
-    ("<dict>"%string, "geometry_dict.update"%string);
-    ("radius"%string, "np.inf"%string);
-    ("</dict>"%string, ""%string);
     ("<stmt>"%string, "return geometry_dict"%string)].
 Proof. reflexivity. Qed.
 Lemma pin_Plane_from_dict : k_codec_Plane_from_dict =
-   if k_flag_plane_conic
-   then [("<args>"%string, "cls, data"%string);
+   [("<args>"%string, "cls, data"%string);
     ("<stmt>"%string, "cs = CoordinateSystem.from_dict(data['cs'])"%string);
     ("<stmt>"%string, "plane = cls(cs)"%string);
     ("<if>"%string, "data.get('conic', 0) != 0"%string);
     ("<stmt>"%string, "  plane.k = data['conic']"%string);
     ("<endif>"%string, ""%string);
-    ("<stmt>"%string, "return plane"%string)]
-   else [("<args>"%string, "cls, data"%string);
-    ("<stmt>"%string, "cs = CoordinateSystem.from_dict(data['cs'])"%string);
-    ("<return-call>"%string, "cls"%string);
-    ("#0"%string, "cs"%string)].
+    ("<stmt>"%string, "return plane"%string)].
 Proof. reflexivity. Qed.
 Lemma pin_Plane_init : k_codec_Plane_init =
    [("<args>"%string, "self, coordinate_system"%string);
@@ -391,19 +348,13 @@ Proof. reflexivity. Qed.
 Lemma pin_EvenAsphere_bases : k_codec_EvenAsphere_bases = ["NewtonRaphsonGeometry"%string].
 Proof. reflexivity. Qed.
 Lemma pin_EvenAsphere_to_dict : k_codec_EvenAsphere_to_dict =
-   if k_flag_evenasphere_copies
-   then [("<args>"%string, "self"%string);
+   [("<args>"%string, "self"%string);
     ("<stmt>"%string, "data = super().to_dict()"%string);
     ("data.coefficients"%string, "list(self.c)"%string);
-    ("<stmt>"%string, "return data"%string)]
-   else [("<args>"%string, "self"%string);
-    ("<stmt>"%string, "data = super().to_dict()"%string);
-    ("data.coefficients"%string, "self.c"%string);
     ("<stmt>"%string, "return data"%string)].
 Proof. reflexivity. Qed.
 Lemma pin_EvenAsphere_from_dict : k_codec_EvenAsphere_from_dict =
-   if k_flag_evenasphere_copies
-   then [("<args>"%string, "cls, data"%string);
+   [("<args>"%string, "cls, data"%string);
     ("<stmt>"%string, "required_keys = {'cs', 'radius'}"%string);
     ("<if>"%string, "not required_keys.issubset(data)"%string);
     ("<stmt>"%string, "  missing = required_keys - data.keys()"%string);
@@ -414,24 +365,6 @@ Lemma pin_EvenAsphere_from_dict : k_codec_EvenAsphere_from_dict =
     ("<stmt>"%string, "tol = data.get('tol', 1e-10)"%string);
     ("<stmt>"%string, "max_iter = data.get('max_iter', 100)"%string);
     ("<stmt>"%string, "coefficients = list(data.get('coefficients', []))"%string);
-    ("<return-call>"%string, "cls"%string);
-    ("#0"%string, "cs"%string);
-    ("#1"%string, "data['radius']"%string);
-    ("#2"%string, "conic"%string);
-    ("#3"%string, "tol"%string);
-    ("#4"%string, "max_iter"%string);
-    ("#5"%string, "coefficients"%string)]
-   else [("<args>"%string, "cls, data"%string);
-    ("<stmt>"%string, "required_keys = {'cs', 'radius'}"%string);
-    ("<if>"%string, "not required_keys.issubset(data)"%string);
-    ("<stmt>"%string, "  missing = required_keys - data.keys()"%string);
-    ("<stmt>"%string, "  raise ValueError(f'Missing required keys: {missing}')"%string);
-    ("<endif>"%string, ""%string);
-    ("<stmt>"%string, "cs = CoordinateSystem.from_dict(data['cs'])"%string);
-    ("<stmt>"%string, "conic = data.get('conic', 0.0)"%string);
-    ("<stmt>"%string, "tol = data.get('tol', 1e-10)"%string);
-    ("<stmt>"%string, "max_iter = data.get('max_iter', 100)"%string);
-    ("<stmt>"%string, "coefficients = data.get('coefficients', [])"%string);
     ("<return-call>"%string, "cls"%string);
     ("#0"%string, "cs"%string);
     ("#1"%string, "data['radius']"%string);
@@ -1127,4 +1060,31 @@ Lemma pin_SolveManager_init : k_codec_SolveManager_init =
    [("<args>"%string, "self, optic"%string);
     ("<stmt>"%string, "self.optic = optic"%string);
     ("<stmt>"%string, "self.solves = []"%string)].
+Proof. reflexivity. Qed.
+
+(** optiland/fileio/optiland_handler.py :: None *)
+Lemma pin_FileIO_bases : k_codec_FileIO_bases = ["load_obj_from_json"%string; "save_obj_to_json"%string; "load_optiland_file"%string; "save_optiland_file"%string].
+Proof. reflexivity. Qed.
+Lemma pin_FileIO_load_obj_from_json : k_codec_FileIO_load_obj_from_json =
+   [("<args>"%string, "cls, filepath"%string);
+    ("<if>"%string, "not os.path.exists(filepath)"%string);
+    ("<stmt>"%string, "  raise FileNotFoundError(f""File '{filepath}' does not exist."")"%string);
+    ("<endif>"%string, ""%string);
+    ("<stmt>"%string, "with open(filepath, 'r') as f:?    data = json.load(f)"%string);
+    ("<return-call>"%string, "cls.from_dict"%string);
+    ("#0"%string, "data"%string)].
+Proof. reflexivity. Qed.
+Lemma pin_FileIO_save_obj_to_json : k_codec_FileIO_save_obj_to_json =
+   [("<args>"%string, "obj, filepath"%string);
+    ("<stmt>"%string, "with open(filepath, 'w') as f:?    json.dump(obj.to_dict(), f, indent=4)"%string)].
+Proof. reflexivity. Qed.
+Lemma pin_FileIO_load_optiland_file : k_codec_FileIO_load_optiland_file =
+   [("<args>"%string, "filepath"%string);
+    ("<return-call>"%string, "load_obj_from_json"%string);
+    ("#0"%string, "Optic"%string);
+    ("#1"%string, "filepath"%string)].
+Proof. reflexivity. Qed.
+Lemma pin_FileIO_save_optiland_file : k_codec_FileIO_save_optiland_file =
+   [("<args>"%string, "obj, filepath"%string);
+    ("<stmt>"%string, "save_obj_to_json(obj, filepath)"%string)].
 Proof. reflexivity. Qed.
